@@ -125,7 +125,31 @@ Proof.
 Qed.
 
 (* ------------------------------------------------------------------ the tables *)
-Definition tbl_ok (t : table) : Prop := forall id r, In (id, r) (t_rows t) -> id < t_next t.
+Definition tbl_ok (t : table) : Prop :=
+  (forall id r, In (id, r) (t_rows t) -> id < t_next t) /\ NoDup (map fst (t_rows t)).
+
+Lemma map_fst_assoc_set {X} id (x : X) l : assoc id l <> None -> map fst (assoc_set id x l) = map fst l.
+Proof.
+  induction l as [|[k v] l IH]; cbn; [congruence|]. destruct (k =? id) eqn:E; cbn; intros H; [f_equal; lia|f_equal; apply IH; exact H].
+Qed.
+Lemma In_keys_assoc_remove {X} id k (l : list (Z * X)) : In k (map fst (assoc_remove id l)) -> In k (map fst l).
+Proof.
+  intros H. apply in_map_iff in H. destruct H as [e [E1 E2]]. apply In_assoc_remove in E2. apply in_map_iff. exists e. tauto.
+Qed.
+Lemma NoDup_keys_assoc_remove {X} id (l : list (Z * X)) : NoDup (map fst l) -> NoDup (map fst (assoc_remove id l)).
+Proof.
+  induction l as [|[k v] l IH]; cbn; intros H; [constructor|]. inversion H; subst.
+  destruct (k =? id); [apply IH; assumption|]. cbn. constructor; [|apply IH; assumption].
+  intros Hin. apply In_keys_assoc_remove in Hin. contradiction.
+Qed.
+Lemma NoDup_keys_assoc {X} id (r : X) l : NoDup (map fst l) -> In (id, r) l -> assoc id l = Some r.
+Proof.
+  induction l as [|[k v] l IH]; cbn; intros H Hin; [destruct Hin|]. inversion H; subst.
+  destruct Hin as [E|Hin].
+  - inversion E; subst. rewrite Z.eqb_refl. reflexivity.
+  - destruct (k =? id) eqn:E; [|apply IH; assumption].
+    exfalso. assert (k = id) by lia. subst k. apply H2. apply in_map_iff. exists (id, r). auto.
+Qed.
 Definition db_ok (s : st) : Prop :=
   tbl_ok (committed s) /\ forall t, pending s = Some t -> tbl_ok t /\ t_next (committed s) <= t_next t.
 Definition Rdbok (s s' : st) : Prop := db_ok s -> db_ok s'.
@@ -137,20 +161,34 @@ Proof. intros H1 H2 H. unfold db_ok in *. rewrite H1, H2. exact H. Qed.
 Definition tfun_ok {A} (f : table -> A * table) : Prop :=
   forall t, tbl_ok t -> tbl_ok (snd (f t)) /\ t_next t <= t_next (snd (f t)).
 
+Lemma NoDup_app_one {X} (l : list X) x : NoDup l -> ~ In x l -> NoDup (l ++ [x]).
+Proof.
+  induction l as [|y l IH]; cbn; intros H Hn; [constructor; [tauto|constructor]|].
+  inversion H; subst. constructor.
+  - rewrite in_app_iff. cbn. intros [A|[A|[]]]; [contradiction|subst; apply Hn; left; reflexivity].
+  - apply IH; [assumption|]. intros A. apply Hn. right. exact A.
+Qed.
 Lemma tfun_insert r : tfun_ok (tbl_insert r).
 Proof.
-  intros t H. cbn. split; [|lia]. intros id x Hin. cbn in *. apply in_app_or in Hin.
-  destruct Hin as [Hin|[Hin|[]]]; [specialize (H id x Hin); lia|inversion Hin; lia].
+  intros t [H Hn]. cbn. split; [|lia]. split.
+  - intros id x Hin. cbn in *. apply in_app_or in Hin.
+    destruct Hin as [Hin|[Hin|[]]]; [specialize (H id x Hin); lia|inversion Hin; lia].
+  - cbn. rewrite map_app. cbn. apply NoDup_app_one; [exact Hn|].
+    intros Hin. apply in_map_iff in Hin. destruct Hin as [[k x] [E1 E2]]. cbn in E1. subst k. specialize (H _ _ E2). lia.
 Qed.
 Lemma tfun_update id c v : tfun_ok (fun t => (tt, tbl_update id c v t)).
 Proof.
-  intros t H. cbn. unfold tbl_update. destruct (assoc id (t_rows t)) as [r|] eqn:E; [|split; [exact H|lia]].
-  cbn. split; [|lia]. intros k x Hin. cbn in Hin. destruct (In_assoc_set _ _ _ _ Hin) as [H1|H1]; [apply (H k x H1)|].
-  inversion H1; subst. apply (H id r). apply assoc_In. exact E.
+  intros t [H Hn]. cbn. unfold tbl_update. destruct (assoc id (t_rows t)) as [r|] eqn:E; [|split; [split; assumption|lia]].
+  cbn. split; [|lia]. split.
+  - intros k x Hin. cbn in Hin. destruct (In_assoc_set _ _ _ _ Hin) as [H1|H1]; [apply (H k x H1)|].
+    inversion H1; subst. apply (H id r). apply assoc_In. exact E.
+  - cbn. rewrite map_fst_assoc_set by congruence. exact Hn.
 Qed.
 Lemma tfun_delete id : tfun_ok (fun t => (tt, tbl_delete id t)).
 Proof.
-  intros t H. cbn. split; [|lia]. intros k x Hin. cbn in Hin. apply In_assoc_remove in Hin. apply (H k x). tauto.
+  intros t [H Hn]. cbn. split; [|lia]. split.
+  - intros k x Hin. cbn in Hin. apply In_assoc_remove in Hin. apply (H k x). tauto.
+  - cbn. apply NoDup_keys_assoc_remove. exact Hn.
 Qed.
 
 Lemma dbok_write sd q A (f : table -> A * table) : tfun_ok f -> pres Rdbok (stmt_write sd q f).
@@ -233,7 +271,7 @@ Proof.
 Qed.
 
 Lemma db_ok_init : db_ok init.
-Proof. split; [intros id r []|discriminate]. Qed.
+Proof. split; [split; [intros id r []|constructor]|discriminate]. Qed.
 
 Lemma run_db_ok ops : forall s, db_ok s -> db_ok (run cfg s ops).
 Proof. induction ops as [|o ops IH]; intros s H; cbn; auto. apply IH. apply step_db_ok. exact H. Qed.
@@ -326,6 +364,6 @@ Proof.
   assert (Hge : t_next (committed s1) <= id).
   { rewrite Hid. unfold view. destruct (pending s1) as [t|] eqn:E; [apply (Hp1 t eq_refl)|lia]. }
   unfold tbl_lookup. destruct (assoc id (t_rows (committed s1))) as [r|] eqn:E; [|reflexivity].
-  apply assoc_In in E. specialize (Hc1 id r E). lia.
+  apply assoc_In in E. destruct Hc1 as [Hc1 _]. specialize (Hc1 id r E). lia.
 Qed.
 End Spec.
